@@ -121,7 +121,7 @@ def target(world, data):
     return None
 
 
-def symbolic(world, ev, s0max):
+def symbolic(world, ev, plain_sns):
     """the model's view of the advertisement: 'A:<hdr>:<body>' (or R:.. for plain)"""
     if ev["k"] == "plain":
         return "R:%s:%d" % (ev["to"], ev["sn"] & 0xFFFF)
@@ -136,12 +136,14 @@ def symbolic(world, ev, s0max):
     elif len(payload) == 0:
         body = "E"
     else:
+        # 1..3 bytes: the counters (among those the receiver can reach in this history) at which
+        # the string is a prefix of the receiver's tag of the empty ciphertext
         t = target(world, data)
-        ats = []
+        ats = set()
         if t is not None and world[t]["key"]:
-            ats = R.short_opens_at(KEYS[world[t]["key"]], bytes(hdr[2:8]), bytes(payload), 0 if s0max < 3000 else s0max - 1500,
-                                   s0max + 1500)
-        body = "H." + (",".join(map(str, ats)) if ats else "-")
+            for base in [world[t]["sn"] or 0] + plain_sns.get(world[t]["id"], []):
+                ats.update(R.short_opens_at(KEYS[world[t]["key"]], bytes(hdr[2:8]), bytes(payload), max(0, base - 5), base + 1400))
+        body = "H." + (",".join(map(str, sorted(ats))) if ats else "-")
     return "A:%s:%s" % (R.hexs(hdr), body)
 
 
@@ -152,8 +154,11 @@ def model_line(world, events):
         has_desc = p["cache"] and p["sn"]
         toks.append("P:%s:%s:%s:%s" % (p["id"], KEYNUM[p["key"]] if p["key"] else "-",
                                        p["sn"] if has_desc else "-", chars))
-    s0max = max([p["sn"] or 0 for p in world] + [e.get("sn", 0) for e in events if e["k"] == "plain"])
-    toks += [symbolic(world, e, s0max) for e in events]
+    plain_sns = {}
+    for e in events:
+        if e["k"] == "plain":
+            plain_sns.setdefault(e["to"], []).append(e["sn"])
+    toks += [symbolic(world, e, plain_sns) for e in events]
     return " ".join(toks)
 
 
@@ -399,7 +404,7 @@ def variants(s, n):
 
 def gen_core(tier):
     starts = [1, 7, 255, 65436, 65535] if tier == "quick" else [1, 2, 7, 100, 255, 256, 4095, 32767, 65400, 65436, 65534, 65535]
-    offs = [1, 2, 3, 50, 98, 99, 100, 101, 150, 0, -1, -2, -5, -6, -100]
+    offs = [1, 2, 50, 99, 100, 101, 0, -1, -5, -6, -100] if tier == "quick" else [1, 2, 3, 50, 98, 99, 100, 101, 150, 0, -1, -2, -5, -6, -100]
     hs = []
     for s in starts:
         for d in offs:
@@ -408,7 +413,7 @@ def gen_core(tier):
                 continue
             for name, v in variants(s, n):
                 g = genuine("A", n)
-                hs.append((mk_world(s, 300), [v, v, g, g, v], "core:%s:%+d" % (name, d)))
+                hs.append((mk_world(s, 300), [v, g, v] if tier == "quick" else [v, v, g, g, v], "core:%s:%+d" % (name, d)))
     return hs
 
 
@@ -630,6 +635,7 @@ def run(ctx):
 
     outcomes_hit = set()
     fallback_disagree = 0
+    fb_samples = []
     mismatches = 0
     for hi, ((world, evs, stream), line, mans, isteps) in enumerate(zip(allh, lines, model, impl)):
         is_plain = hi >= len(hs)
@@ -643,6 +649,8 @@ def run(ctx):
                 outcomes_hit.add(o)
             if (o in ("nokey", "nodecrypt")) != (fb > 0) and o != "plain":
                 fallback_disagree += 1
+                if len(fb_samples) < 3:
+                    fb_samples.append(dict(stream=stream, model_outcome=o, impl_fallback_calls=fb, line=line[:600]))
         orc = oracle_history(world, evs, ist, check_monotone=not is_plain)
         for key, what, idx in orc:
             if key in seen_keys:
@@ -721,9 +729,11 @@ def run(ctx):
     cov.extra["model_outcomes_missed"] = sorted(all_out - outcomes_hit)
     cov.extra["disagreements_checked"] = mismatches
     cov.extra["fallback_outcome_disagreements_informational"] = fallback_disagree
+    cov.extra["fallback_outcome_disagreement_samples"] = fb_samples
     cov.extra["exhaustive"] = True
     cov.extra["exhaustive_part"] = ("every single-bit flip of the 16 payload+tag bytes and of the 8 header bytes of %d notifications; "
-                                    "the full grid starts x offsets {+1,+2,+3,+50,+98,+99,+100,+101,+150,0,-1,-2,-5,-6,-100} x %d variants; "
+                                    "the full grid starts x offsets {+1,+2,+50,+99,+100,+101,0,-1,-5,-6,-100} (thorough: also +3,+98,+150,-2) x %d variants, "
+                                    "each as [variant, genuine, variant] (thorough: [variant, variant, genuine, genuine, variant]); "
                                     "values.from_bytes: all 1-byte and all 2-byte strings with a non-ASCII lead for the string format"
                                     % (2 if tier == "quick" else 4, len(variants(7, 8))))
     cov.extra["observations"] = dict(
